@@ -62,6 +62,7 @@ type Stats struct {
 	Cancels, Stops, OfflineConnects            atomic.Int64
 	NotifierCalls, HintCommits                 atomic.Int64
 	StaleCandidates                            atomic.Int64
+	ProbeStates, ProbeSkipped, ProbeSuffixes   atomic.Int64
 }
 
 type reportFn func(sig, what string, hist []string, p Params)
@@ -1015,6 +1016,85 @@ func (w *world) stop() {
 		r.disp, r.regLife = nil, false
 	}
 	w.logf("notifier stopped at %d", w.chain.tip())
+}
+
+// ---------------------------------------------------------------------------------
+// terminal suffix probes
+//
+// Clause (iv) speaks about what a rescan *after a restart* can miss, so the futures that
+// matter for a persisted hint are "the notifier goes down here and the event lands in the
+// next block". Reaching them through the ordinary alphabet costs one unit of the restart
+// budget and two levels of depth on top of whatever built the state (the defect repaired
+// by 8d4968e needs a first restart to obtain a persisted hint with a pending rescan and a
+// second one to confirm the tx below that hint). Probe therefore extends EVERY newly
+// discovered state in which the notifier is up, no NotifyHeight is outstanding (= where
+// "stop" is an action of the alphabet) and at least one hint is persisted by the suffixes
+//
+//	stop ; con:X      for every non-empty block content X of the space that is connectable
+//
+// executed on the real notifier / hint cache through the same do() as any explored
+// action, judged by the same endOfOp clauses (nothing is predicted: the suffix is run).
+// The restart *budget* is a bound of the search, not an assumption of the property (a
+// node can go down at any time), so a probe may stop the notifier even when the budget of
+// the space is used up; the replay artefact of a violation found this way carries the
+// raised budget so that its history replays through the ordinary alphabet.
+// The probes are terminal: the world is closed afterwards and the probed suffix states
+// are not added to the frontier. States without a persisted hint are skipped (stop and
+// offline connects never write the cache, so clause (iv) has no antecedent there).
+
+// Probe runs the suffix probes on the current state and returns how many were executed.
+func (w *world) Probe() int {
+	var (
+		n       int
+		pending []func()
+	)
+	w.in(func() {
+		n = w.probe()
+		pending, w.pending = w.pending, nil
+	})
+	for _, f := range pending {
+		f()
+	}
+	return n
+}
+
+func (w *world) probe() int {
+	if w.dead || !w.up || w.notifyPending != 0 {
+		return 0
+	}
+	has := false
+	for _, id := range w.reqIDs() {
+		if _, ok := w.cacheEntry(id); ok {
+			has = true
+		}
+	}
+	if !has {
+		w.st.ProbeSkipped.Add(1)
+		return 0
+	}
+	w.st.ProbeStates.Add(1)
+	if w.restarts >= w.p.Restarts {
+		w.p.Restarts = w.restarts + 1
+	}
+	if err := w.do("stop"); err != nil || w.dead {
+		return 0
+	}
+	n := 0
+	for _, x := range w.p.Contents {
+		if len(contentTxs[x]) == 0 || !w.contentOK(x) {
+			continue
+		}
+		nb, maxSeen, nh := len(w.chain.blocks), w.chain.maxSeen, len(w.hist)
+		n++
+		w.st.ProbeSuffixes.Add(1)
+		if err := w.do("con:" + x); err != nil || w.dead {
+			return n
+		}
+		// back to the stopped state (harness-side reference chain only: the notifier
+		// is down and the hint cache was not touched)
+		w.chain.blocks, w.chain.maxSeen, w.hist = w.chain.blocks[:nb], maxSeen, w.hist[:nh]
+	}
+	return n
 }
 
 // ---------------------------------------------------------------------------------
